@@ -1510,3 +1510,81 @@ Proof.
   intros Hi tx1 tx2. unfold tx2. rewrite rx_captures by exact Hi.
   destruct (i <? ngroups idx2)%nat; [reflexivity|]. unfold tx1. apply rx_captures. exact Hi.
 Qed.
+
+(* ==================================================================================== *)
+(* @ipMatch / @ipMatchFromFile (IPv4 forms)                                              *)
+(* ==================================================================================== *)
+Module IpSpec.
+  (* the addresses of the block a/n: the 2^(32-n) addresses that share the first n bits with a *)
+  Definition in_block (net : N * N) (ip : N) : Prop :=
+    let '(a, n) := net in
+    let size := 2 ^ (32 - n) in
+    (a / size) * size <= ip < (a / size) * size + size.
+  (* @ipMatch: the value is a dotted IPv4 address that lies in the union of the listed blocks *)
+  Definition ipmatch (nets : list (N * N)) (value : bytes) : Prop :=
+    exists ip, parse_ipv4 value = Some ip /\ exists net, In net nets /\ in_block net ip.
+End IpSpec.
+
+Lemma net_contains_iff net ip : net_contains net ip = true <-> IpSpec.in_block net ip.
+Proof.
+  destruct net as [a n]. unfold net_contains, IpSpec.in_block.
+  rewrite N.eqb_eq, !N.shiftr_div_pow2.
+  set (P := 2 ^ (32 - n)). assert (HP : 0 < P) by (apply N.neq_0_lt_0, N.pow_nonzero; lia).
+  pose proof (N.div_mod ip P ltac:(lia)) as Hi. pose proof (N.mod_lt ip P ltac:(lia)) as Hm.
+  rewrite (N.mul_comm P (ip / P)) in Hi.
+  split.
+  - intros E. rewrite <- E. set (q := ip / P) in *. set (m := ip mod P) in *. clearbody q m P.
+    set (qp := q * P) in *. clearbody qp. lia.
+  - intros [H1 H2]. symmetry. apply (N.div_unique ip P (a / P) (ip - a / P * P)).
+    + set (ap := a / P * P) in *. clearbody ap. lia.
+    + rewrite (N.mul_comm P (a / P)). set (ap := a / P * P) in *. clearbody ap. lia.
+Qed.
+
+Lemma ipm_eval_exact nets v : ipm_eval nets v = true <-> IpSpec.ipmatch nets v.
+Proof.
+  unfold ipm_eval, IpSpec.ipmatch. destruct (parse_ipv4 v) as [ip|].
+  - rewrite existsb_exists. split.
+    + intros [net [Hn Hc]]. exists ip. split; [reflexivity|]. exists net. split; [exact Hn|].
+      apply net_contains_iff. exact Hc.
+    + intros [ip' [E [net [Hn Hb]]]]. inversion E; subst ip'. exists net. split; [exact Hn|].
+      apply net_contains_iff. exact Hb.
+  - split; [discriminate|]. intros [ip [E _]]. discriminate.
+Qed.
+
+(* the listed networks are exactly the items that parse, in order (nothing is rejected at
+   construction: an item that does not parse is skipped) *)
+Lemma ipm_nets_in items net :
+  In net (ipm_nets items) <-> exists it, In it items /\ ipm_item it = Some net.
+Proof.
+  induction items as [|it r IH]; cbn [ipm_nets].
+  - split; [intros [] | intros [? [[] _]]].
+  - destruct (ipm_item it) as [n|] eqn:E.
+    + cbn [In]. rewrite IH. split.
+      * intros [<-|[x [Hx Hn]]]; [exists it; split; [left; reflexivity | exact E] | exists x; split; [right; exact Hx | exact Hn]].
+      * intros [x [[<-|Hx] Hn]]; [left; congruence | right; exists x; split; assumption].
+    + rewrite IH. split.
+      * intros [x [Hx Hn]]. exists x. split; [right; exact Hx | exact Hn].
+      * intros [x [[<-|Hx] Hn]]; [congruence | exists x; split; assumption].
+Qed.
+
+(* @ipMatch arg decides exactly: the value is an IPv4 address inside the block of some
+   comma-separated item that parses *)
+Lemma ipmatch_exact arg v :
+  ipm_eval (ipm_new arg) v = true <->
+  exists ip it net, parse_ipv4 v = Some ip /\ In it (split_byte 44 arg) /\ ipm_item it = Some net
+                    /\ IpSpec.in_block net ip.
+Proof.
+  rewrite ipm_eval_exact. unfold IpSpec.ipmatch, ipm_new. split.
+  - intros [ip [E [net [Hn Hb]]]]. apply ipm_nets_in in Hn as [it [Hi Hp]]. exists ip, it, net. auto.
+  - intros [ip [it [net [E [Hi [Hp Hb]]]]]]. exists ip. split; [exact E|]. exists net. split; [|exact Hb].
+    apply ipm_nets_in. exists it. auto.
+Qed.
+
+(* /32 is the single address, /0 is everything *)
+Lemma in_block_32 a ip : IpSpec.in_block (a, 32) ip <-> ip = a.
+Proof. unfold IpSpec.in_block. change (2 ^ (32 - 32)) with 1. rewrite N.div_1_r. lia. Qed.
+Lemma in_block_0 a ip : a < 2 ^ 32 -> (IpSpec.in_block (a, 0) ip <-> ip < 2 ^ 32).
+Proof.
+  intros Ha. unfold IpSpec.in_block. change (2 ^ (32 - 0)) with (2 ^ 32).
+  rewrite (N.div_small a) by exact Ha. lia.
+Qed.
